@@ -72,6 +72,9 @@ SELECT_ALPHA = [
     # SQL Server only
     ("top", ["top", 5]),
     ("limit", ["fetch_next", 4]),
+    # a negative constant right of a minus (two signs must not fuse into a comment opener that swallows the rest)
+    ("select", ["select", [["as", ["arith", "*", ["arith", "-", f("t", "a"), raw(-1)], raw(2)], "d"]]]),
+    ("where", ["where", ["cmp", ">", ["arith", "-", f("t", "b"), raw(-2.5)], raw(0)]]),
     # texts that begin and end with the quote character of their position
     ("where", ["where", ["cmp", "=", f("t", "s"), raw("'x' y'")]]),
     ("select", ["select", [["as", f("t", "a"), '"p"q"']]]),
@@ -102,6 +105,7 @@ INSERT_SELECT_ALPHA = [
 UPDATE_ALPHA = [
     ("set", ["set", f("t", "a"), raw(1)]),
     ("set", ["set", "b", ["arith", "+", f("t", "b"), raw(2)]]),
+    ("set", ["set", "s", ["arith", "-", f("t", "b"), raw(-1)]]),
     ("where", ["where", ["cmp", "=", f("t", "id"), raw(3)]]),
     ("where", ["where", ["cmp", ">", f("t", "a"), raw(0)]]),
     ("where", ["where", ["cmp", "=", f("t", "s"), raw("'x' y'")]]),
